@@ -1,6 +1,7 @@
 package main
 
 import (
+	"go/constant"
 	"fmt"
 	"go/token"
 	"go/types"
@@ -825,6 +826,28 @@ func (c *Ctx) callersFalsify(fn *ssa.Function, p *ssa.Panic, depth int) (bool, s
 			atoms = append(atoms, atom{i, bo.Op, bo.Y})
 			return true
 		}
+		// len(p) == 0 / len([]rune(p)) == 0 on a string parameter: the same as p == ""
+		for _, pair := range [][2]ssa.Value{{bo.X, bo.Y}, {bo.Y, bo.X}} {
+			call, isCall := pair[0].(*ssa.Call)
+			k, isK := constInt(pair[1])
+			if !isCall || !isK || k != 0 || bo.Op != token.EQL {
+				continue
+			}
+			if bi, ok := call.Call.Value.(*ssa.Builtin); ok && bi.Name() == "len" {
+				arg := call.Call.Args[0]
+				if cv, ok := arg.(*ssa.Convert); ok {
+					arg = cv.X
+				}
+				for i, prm := range fn.Params {
+					if ssa.Value(prm) == arg {
+						if b, ok := prm.Type().Underlying().(*types.Basic); ok && b.Kind() == types.String {
+							atoms = append(atoms, atom{i, token.EQL, ssa.NewConst(constant.MakeString(""), prm.Type())})
+							return true
+						}
+					}
+				}
+			}
+		}
 		return false
 	}
 	blk := p.Block()
@@ -853,6 +876,13 @@ func (c *Ctx) callersFalsify(fn *ssa.Function, p *ssa.Panic, depth int) (bool, s
 			case func() bool { s, ok := constString(a.other); return ok && s == "" && a.op == token.EQL }():
 				if s, ok := constString(arg); ok && s != "" {
 					okSite = true
+				} else if ss := c.stringsOf(regEvent{}, arg, 4); len(ss) > 0 {
+					okSite = true
+					for _, s := range ss {
+						if s == "" {
+							okSite = false
+						}
+					}
 				} else {
 					for _, g := range guardsAt(ci.Block()) {
 						cond, truth := g.atom()
@@ -1665,6 +1695,13 @@ func (c *Ctx) paramNeverSatisfies(fn *ssa.Function, pi int, bad ssa.Value, depth
 			ok = c.certainlyNonNil(arg, guardsAt(ci.Block()), 4)
 		} else if s, isS := constString(arg); isS && s != "" {
 			ok = true
+		} else if ss := c.stringsOf(regEvent{}, arg, 4); len(ss) > 0 {
+			ok = true // an element of a literal list of constants, none of them empty
+			for _, s := range ss {
+				if s == "" {
+					ok = false
+				}
+			}
 		} else {
 			for _, g := range guardsAt(ci.Block()) {
 				cond, truth := g.atom()
